@@ -1,50 +1,100 @@
 """C17 sidecar contracts: compiler workers compile against the caller's state.
 
-Coupled state: server belief B(w) = (w._dbs, w._global_schema_pickle, w._system_config, w._last_pickled_state)
-and worker actual A = (DBS, GLOBAL_SCHEMA, INSTANCE_CONFIG, LAST_STATE).  pickle/unpickle are uninterpreted
-(pk/unpk with unpk(pk(x)) == x).  Object identity (`is`) is equality of opaque references.
+Coupled state.  Server belief about a worker w:  B(w) = (w._dbs, w._global_schema_pickle, w._system_config,
+w._last_pickled_state).  What the worker process really holds: A(w) = (DBS, GLOBAL_SCHEMA, INSTANCE_CONFIG, LAST_STATE);
+on the server side A(w) is *ghost* state of the Worker handle (fields A_dbs, A_global, A_sys, A_last), in the worker
+process it is the module globals of worker.py.  pickle.dumps/loads are uninterpreted (pk/unpk, unpk(pk(x)) == x);
+`is` is identity of opaque references; truthiness of opaque objects is uninterpreted (an empty Map is falsy).
+
+Coupling invariant J(w) (holds whenever no call to w is in flight):
+    for every db in w._dbs:  db in A_dbs, A_dbs[db].user_schema == unpk(w._dbs[db].user_schema_pickle),
+                             A_dbs[db].reflection_cache == w._dbs[db].reflection_cache, same for database_config;
+    A_global == unpk(w._global_schema_pickle);  A_sys == w._system_config.
+
+Chain of obligations that carries the property:
+  server  AbstractPool.compile* : J + postcondition of _compute_compile_preargs  ==> precondition of the RPC (pre@callsite of BaseWorker.call)
+  server  BaseWorker.call       : acknowledges the transfer (runs the callback) iff the worker completed its state sync
+  worker  compile*              : RPC precondition ==> the compiler entry point receives exactly the request's state (pre@callsite of COMPILER.*)
+  worker  __sync__              : all-or-nothing
+  server  AbstractPool.compile* : J re-established on every outcome
+The channel (amsg + worker_proc.worker loop) is trusted glue: `_request` is given the worker functions' *verified*
+contracts with the worker globals renamed to the ghost fields (same clause texts, see `_a()`).
 """
+import z3
 from pyvc.engine import World
+from pyvc.vtypes import V, TOpt, NONE, vite, unpack, coerce
 
 POOL = 'edb/server/compiler_pool/pool.py'
 WORKER = 'edb/server/compiler_pool/worker.py'
 STATE = 'edb/server/compiler_pool/state.py'
 
+COMPS = ['user_schema_pickle', 'reflection_cache', 'global_schema_pickle', 'database_config', 'system_config']
+
+def _a(clauses):
+    """worker-process clause -> the same clause over the ghost fields of the server-side Worker handle `self`"""
+    out = []
+    for c in clauses:
+        c = c.replace('GLOBAL_SCHEMA', 'self.A_global').replace('INSTANCE_CONFIG', 'self.A_sys').replace('LAST_STATE', 'self.A_last')
+        c = c.replace('DBS', 'self.A_dbs')
+        out.append(c)
+    return out
+
 def build():
     w = World('C17')
-    w.any('Obj', truthy='uninterpreted')        # opaque python objects (pickles, schemas, maps): identity + truthiness only
+    w.refclass('Obj', {'root_user_schema': 'Obj', '__formatted_error__': 'Obj'}, truthy='uninterpreted', universal=True)
     w.rec('PDS', [('user_schema_pickle', 'Obj'), ('reflection_cache', 'Obj'), ('database_config', 'Obj')], STATE, 'PickledDatabaseState')
     w.rec('DS', [('name', 'Obj'), ('user_schema', 'Obj'), ('reflection_cache', 'Obj'), ('database_config', 'Obj')], STATE, 'DatabaseState')
     w.refclass('Worker', {'_dbs': 'Map[Obj,PDS]', '_global_schema_pickle': 'Obj', '_system_config': 'Obj',
-                          '_last_pickled_state': 'Opt[Obj]', '_closed': 'bool'}, POOL, 'BaseWorker')
+                          '_last_pickled_state': 'Opt[Obj]', '_closed': 'bool', '_con': 'Con', '_last_used': 'float',
+                          # ghost: what the worker process holds, and the outcome of the last RPC
+                          'A_dbs': 'Map[Obj,DS]', 'A_global': 'Obj', 'A_sys': 'Obj', 'A_last': 'Opt[Obj]',
+                          'G_synced': 'bool', 'G_acked': 'bool', 'G_status': 'int', 'G_fss': 'bool'}, POOL, 'BaseWorker')
+    w.refclass('Con', {})
+    w.refclass('PoolT', {}, POOL, 'AbstractPool')
     w.rec('Cb', [('worker', 'Worker'), ('dbname', 'Obj'), ('kw', 'Map[str,Obj]')])
-    w.ufunc('pk', ['Obj'], 'Obj', facts=['unpk(pk(a0)) == a0']); w.ufunc('unpk', ['Obj'], 'Obj')
-    w.trusted.append('pickle.dumps/loads are uninterpreted with loads(dumps(x)) == x; _pickle_memoized(x) returns dumps(x)')
+    w.ufunc('pk', ['Obj'], 'Obj', facts=['unpk(pk(a0)) == a0', 'bool(pk(a0))']); w.ufunc('unpk', ['Obj'], 'Obj')
+    w.trusted.append('pickle.dumps/loads are uninterpreted with loads(dumps(x)) == x; a pickle is a non-empty (truthy) bytes object; _pickle_memoized(x) returns dumps(x)')
+    w.trusted.append('the amsg channel and worker_proc.worker deliver (method, args) unchanged to the function of that name in worker.py '
+                     'and return its outcome as (0,res) / (1,exc,tb) / (2,msg); BaseWorker._request is given the verified contracts of the worker functions')
+    w.opaque_exprs['state.REUSE_LAST_STATE_MARKER'] = 'Obj'
 
-    CB = POOL + ':AbstractPool._compute_compile_preargs.<locals>.sync_worker_state_cb'
-    w.define('B_has(wk, db)', 'db in wk._dbs')
-    w.define('eff(new, old_)', 'some(new) if not is_none(new) else old_')
-    w.contract(POOL, 'AbstractPool._compute_compile_preargs.<locals>.sync_worker_state_cb',
-        params={'worker': 'Worker', 'dbname': 'Obj', 'user_schema_pickle': 'Opt[Obj]', 'global_schema_pickle': 'Opt[Obj]',
-                'reflection_cache': 'Opt[Obj]', 'database_config': 'Opt[Obj]', 'system_config': 'Opt[Obj]'},
-        requires=['implies(not (dbname in worker._dbs), not is_none(user_schema_pickle) and not is_none(reflection_cache) and not is_none(global_schema_pickle) and not is_none(database_config) and not is_none(system_config))',
-                  # type invariant: pickles are non-empty bytes, hence truthy
-                  'implies(not is_none(user_schema_pickle), bool(some(user_schema_pickle)))',
+    # ------------------------------------------------------------------ server: acknowledgement callback
+    w.partial_types['sync_worker_state_cb'] = 'Cb'
+    CBQ = 'AbstractPool._compute_compile_preargs.<locals>.sync_worker_state_cb'
+    OPTS = {'user_schema_pickle': 'Opt[Obj]', 'global_schema_pickle': 'Opt[Obj]', 'reflection_cache': 'Opt[Obj]',
+            'database_config': 'Opt[Obj]', 'system_config': 'Opt[Obj]'}
+    def cb_post(wk, db, val):
+        """belief after acknowledging: exactly what was transmitted, else what was believed; val(comp) -> (present?, value)"""
+        out = ['%s in %s._dbs' % (db, wk)]
+        for comp, fld in (('user_schema_pickle', '_dbs[%s].user_schema_pickle' % db), ('reflection_cache', '_dbs[%s].reflection_cache' % db),
+                          ('database_config', '_dbs[%s].database_config' % db), ('global_schema_pickle', '_global_schema_pickle'),
+                          ('system_config', '_system_config')):
+            present, value = val(comp)
+            out.append('%s.%s == (%s if %s else old(%s.%s))' % (wk, fld, value, present, wk, fld))
+        out.append('map_same_except(%s._dbs, old(%s._dbs), %s)' % (wk, wk, db))
+        out.append('heap_same_except("Worker._dbs", %s) and heap_same_except("Worker._global_schema_pickle", %s) and heap_same_except("Worker._system_config", %s)' % (wk, wk, wk))
+        return out
+    P = {'worker': 'Worker', 'dbname': 'Obj'}; P.update(OPTS)
+    w.contract(POOL, CBQ, params=P,
+        requires=['implies(not (dbname in worker._dbs), ' + ' and '.join('not is_none(%s)' % c for c in COMPS) + ')',
+                  'implies(not is_none(user_schema_pickle), bool(some(user_schema_pickle)))',     # a pickle is truthy
                   'implies(dbname in worker._dbs, bool(worker._dbs[dbname].user_schema_pickle))'],
         modifies=['Worker._dbs', 'Worker._global_schema_pickle', 'Worker._system_config'],
-        ensures=[
-            # after acknowledging, the belief about (worker, dbname) is exactly what was transmitted, else what was believed
-            'dbname in worker._dbs',
-            'worker._dbs[dbname].user_schema_pickle == (some(user_schema_pickle) if not is_none(user_schema_pickle) else old(worker._dbs[dbname].user_schema_pickle))',
-            'worker._dbs[dbname].reflection_cache == (some(reflection_cache) if not is_none(reflection_cache) else old(worker._dbs[dbname].reflection_cache))',
-            'worker._dbs[dbname].database_config == (some(database_config) if not is_none(database_config) else old(worker._dbs[dbname].database_config))',
-            'worker._global_schema_pickle == (some(global_schema_pickle) if not is_none(global_schema_pickle) else old(worker._global_schema_pickle))',
-            'worker._system_config == (some(system_config) if not is_none(system_config) else old(worker._system_config))',
-            # frame: other databases and other workers untouched
-            'forall(Obj, lambda d: implies(d != dbname, (d in worker._dbs) == old(d in worker._dbs) and implies(d in worker._dbs, worker._dbs[d] == old(worker._dbs[d]))))',
-            'forall(Worker, lambda o: implies(o != worker, o._dbs == old(o._dbs) and o._global_schema_pickle == old(o._global_schema_pickle) and o._system_config == old(o._system_config)))',
-        ])
-    w.partial_types['sync_worker_state_cb'] = 'Cb'
+        ensures=cb_post('worker', 'dbname', lambda c: ('not is_none(%s)' % c, 'some(%s)' % c)))
+    def call_cb(ex, recv, args, kwargs, node):
+        fr = ex.lookup_nested(POOL, CBQ)
+        kw = recv.t['kw']
+        a = {'worker': recv.t['worker'], 'dbname': recv.t['dbname']}
+        for comp in COMPS:
+            kt = z3.StringVal(comp)
+            a[comp] = V(TOpt(w.ty('Obj')), (z3.Not(z3.Select(kw.t[0], kt)), unpack(z3.Select(kw.t[1], kt), w.ty('Obj'))))
+        r = ex.call_func(fr, [], a, node)
+        # ghost update attached to the event "the acknowledgement callback ran": G_acked := True on that worker
+        ex.heap_write(recv.t['worker'], 'G_acked', V(w.ty('bool'), z3.BoolVal(True)))
+        return r
+    w.callable_recs['Cb'] = call_cb
+
+    # ------------------------------------------------------------------ server: what is transmitted
     w.contract(POOL, '_pickle_memoized', params={'schema': 'Obj'}, returns='Obj', pure=True, trusted=True,
                ensures=['result == pk(schema)', 'bool(result)'])
     def sent(i, comp, packed):
@@ -53,40 +103,218 @@ def build():
         believed = {'user_schema_pickle': 'worker._dbs[dbname].user_schema_pickle', 'reflection_cache': 'worker._dbs[dbname].reflection_cache',
                     'database_config': 'worker._dbs[dbname].database_config', 'global_schema_pickle': 'worker._global_schema_pickle',
                     'system_config': 'worker._system_config'}[comp]
-        return [
-            # what is not transmitted is (by identity) what the server believes the worker holds
-            'implies(is_none(%s), dbname in worker._dbs and %s == %s)' % (a, believed, comp),
-            'implies(not is_none(%s), some(%s) == %s)' % (a, a, val),
-            # the acknowledgement callback records exactly the transmitted parts
-            'implies(not is_none(%s), not is_none(result[1]) and ("%s" in some(result[1]).kw) and some(result[1]).kw["%s"] == %s)' % (a, comp, comp, comp),
-            'implies(is_none(%s) and not is_none(result[1]), not ("%s" in some(result[1]).kw))' % (a, comp),
-        ]
-    ens = ['len(result[0]) == 7', 'some(result[0][0]) == method_name', 'some(result[0][1]) == dbname', 'not is_none(result[0][0])', 'not is_none(result[0][1])',
+        return ['implies(is_none(%s), dbname in worker._dbs and %s == %s)' % (a, believed, comp),      # not transmitted = (by identity) what the server believes the worker holds
+                'implies(not is_none(%s), some(%s) == %s)' % (a, a, val),
+                'implies(not is_none(%s), not is_none(result[1]) and ("%s" in some(result[1]).kw) and some(result[1]).kw["%s"] == %s)' % (a, comp, comp, comp),
+                'implies(is_none(%s) and not is_none(result[1]), not ("%s" in some(result[1]).kw))' % (a, comp)]
+    ens = ['len(result[0]) == 7', 'not is_none(result[0][0])', 'not is_none(result[0][1])', 'some(result[0][0]) == method_name', 'some(result[0][1]) == dbname',
            'implies(not (dbname in worker._dbs), not is_none(result[0][2]) and not is_none(result[0][3]) and not is_none(result[0][4]) and not is_none(result[0][5]) and not is_none(result[0][6]))',
            'implies(not is_none(result[1]), some(result[1]).worker == worker and some(result[1]).dbname == dbname)',
            'is_none(result[1]) == (is_none(result[0][2]) and is_none(result[0][3]) and is_none(result[0][4]) and is_none(result[0][5]) and is_none(result[0][6]))']
-    for i, comp, packed in [(2, 'user_schema_pickle', False), (3, 'reflection_cache', True), (4, 'global_schema_pickle', False), (5, 'database_config', True), (6, 'system_config', True)]:
-        ens += sent(i, comp, packed)
-    w.contract(POOL, 'AbstractPool._compute_compile_preargs',
-        params={'self': 'Obj', 'method_name': 'Obj', 'worker': 'Worker', 'dbname': 'Obj', 'user_schema_pickle': 'Obj', 'global_schema_pickle': 'Obj',
-                'reflection_cache': 'Obj', 'database_config': 'Obj', 'system_config': 'Obj'},
-        returns='Tuple[Seq[Opt[Obj]],Opt[Cb]]', ensures=ens,
-        hints={'var_types': {'to_update': 'Map[str,Obj]'}})
+    ORDER = [(2, 'user_schema_pickle', False), (3, 'reflection_cache', True), (4, 'global_schema_pickle', False), (5, 'database_config', True), (6, 'system_config', True)]
+    for i, comp, packed in ORDER: ens += sent(i, comp, packed)
+    REQP = {'user_schema_pickle': 'Obj', 'global_schema_pickle': 'Obj', 'reflection_cache': 'Obj', 'database_config': 'Obj', 'system_config': 'Obj'}
+    P = {'self': 'PoolT', 'method_name': 'Obj', 'worker': 'Worker', 'dbname': 'Obj'}; P.update(REQP)
+    w.contract(POOL, 'AbstractPool._compute_compile_preargs', params=P, returns='Tuple[Seq[Opt[Obj]],Opt[Cb]]', ensures=ens,
+               hints={'var_types': {'to_update': 'Map[str,Obj]'}})
+
     # ------------------------------------------------------------------ worker process
     WSTATE = {'DBS': 'Map[Obj,DS]', 'GLOBAL_SCHEMA': 'Obj', 'INSTANCE_CONFIG': 'Obj'}
     SYNC_PARAMS = {'dbname': 'Obj', 'user_schema': 'Opt[Obj]', 'reflection_cache': 'Opt[Obj]', 'global_schema': 'Opt[Obj]',
                    'database_config': 'Opt[Obj]', 'system_config': 'Opt[Obj]'}
-    UNCHANGED = ['forall(Obj, lambda d: (d in DBS) == old(d in DBS) and implies(d in DBS, DBS[d] == old(DBS[d])))',
-                 'GLOBAL_SCHEMA == old(GLOBAL_SCHEMA)', 'INSTANCE_CONFIG == old(INSTANCE_CONFIG)']
+    UNCHANGED = ['map_same(DBS, old(DBS))', 'GLOBAL_SCHEMA == old(GLOBAL_SCHEMA)', 'INSTANCE_CONFIG == old(INSTANCE_CONFIG)']
+    OTHERS = 'map_same_except(DBS, old(DBS), dbname)'
     SYNCED = ['dbname in DBS',
               'DBS[dbname].user_schema == (unpk(some(user_schema)) if not is_none(user_schema) else old(DBS[dbname].user_schema))',
               'DBS[dbname].reflection_cache == (unpk(some(reflection_cache)) if not is_none(reflection_cache) else old(DBS[dbname].reflection_cache))',
               'DBS[dbname].database_config == (unpk(some(database_config)) if not is_none(database_config) else old(DBS[dbname].database_config))',
               'GLOBAL_SCHEMA == (unpk(some(global_schema)) if not is_none(global_schema) else old(GLOBAL_SCHEMA))',
-              'INSTANCE_CONFIG == (unpk(some(system_config)) if not is_none(system_config) else old(INSTANCE_CONFIG))',
-              'forall(Obj, lambda d: implies(d != dbname, (d in DBS) == old(d in DBS) and implies(d in DBS, DBS[d] == old(DBS[d]))))']
+              'INSTANCE_CONFIG == (unpk(some(system_config)) if not is_none(system_config) else old(INSTANCE_CONFIG))', OTHERS]
     w.contract(WORKER, '__sync__', params=SYNC_PARAMS, state=WSTATE, returns='DS', modifies=list(WSTATE),
         ensures=SYNCED + ['result == DBS[dbname]'],
         raises={'FailedStateSync': dict(ensures=UNCHANGED)},     # a failed state transfer leaves the worker's state as it was
-        hints={'var_types': {'updates': 'Map[str,Obj]'}, 'axioms': ['unpk']})
+        hints={'var_types': {'updates': 'Map[str,Obj]'}})
+
+    REQ = {'req_usp': 'Obj', 'req_gsp': 'Obj', 'req_rc': 'Obj', 'req_dc': 'Obj', 'req_sc': 'Obj'}   # ghost: the state supplied with the request
+    FRESH = ['user_schema == unpk(req_usp)', 'global_schema == unpk(req_gsp)', 'reflection_cache == req_rc',
+             'database_config == req_dc', 'system_config == req_sc']
+    w.refclass('CompilerT', {})
+    for m in ('compile_serialized_request', 'compile_notebook', 'compile_graphql', 'compile_sql'):
+        w.ext_methods['CompilerT.' + m] = dict(
+            params={'user_schema': 'Obj', 'global_schema': 'Obj', 'reflection_cache': 'Obj', 'database_config': 'Obj', 'system_config': 'Obj'},
+            ghost=REQ, requires=FRESH, returns='Tuple[Obj,Opt[Obj]]' if m == 'compile_serialized_request' else 'Obj',
+            raises={'Exception': {}}, tag='property')
+    w.ext_methods['CompilerT.compile'] = dict(   # keyword form used by worker.compile_graphql
+        params={'user_schema': 'Obj', 'global_schema': 'Obj', 'reflection_cache': 'Obj', 'database_config': 'Obj', 'system_config': 'Obj', 'request': 'Obj'},
+        ghost=REQ, requires=FRESH, returns='Tuple[Obj,Opt[Obj]]', raises={'Exception': {}}, tag='property')
+    w.refclass('GqlOp', {'edgeql_ast': 'Obj'})
+    w.ext_funcs['graphql.compile_graphql'] = dict(
+        params={'std_schema': 'Obj', 'user_schema': 'Obj', 'global_schema': 'Obj', 'database_config': 'Obj', 'system_config': 'Obj'},
+        ghost=REQ, requires=['user_schema == unpk(req_usp)', 'global_schema == unpk(req_gsp)', 'database_config == req_dc', 'system_config == req_sc'],
+        returns='GqlOp', raises={'Exception': {}}, tag='property')
+    for fn_ in ('edgeql.Source.from_string', 'edgeql.generate_source', 'compiler.CompilationRequest', 'uuidgen.uuid4'):
+        w.ext_funcs[fn_] = dict(params={}, returns='Obj', raises={'Exception': {}})
+    for ex_ in ('COMPILER.state.compilation_config_serializer', 'defines.CURRENT_PROTOCOL', 'compiler.OutputFormat.JSON', 'compiler.InputFormat.JSON'):
+        w.opaque_exprs[ex_] = 'Obj'
+
+    def part(arg, comp, packed, held):
+        sent_ = ('pk(%s)' % comp) if packed else comp
+        return ['implies(not is_none(%s), some(%s) == %s)' % (arg, arg, sent_), 'implies(is_none(%s), dbname in DBS and %s)' % (arg, held)]
+    # worker-side precondition of a state-carrying request
+    WREQ = (part('user_schema', 'req_usp', False, 'DBS[dbname].user_schema == unpk(req_usp)') +
+            part('reflection_cache', 'req_rc', True, 'DBS[dbname].reflection_cache == req_rc') +
+            part('database_config', 'req_dc', True, 'DBS[dbname].database_config == req_dc') +
+            ['implies(not is_none(global_schema), some(global_schema) == req_gsp)', 'implies(is_none(global_schema), GLOBAL_SCHEMA == unpk(req_gsp))',
+             'implies(not is_none(system_config), some(system_config) == pk(req_sc))', 'implies(is_none(system_config), INSTANCE_CONFIG == req_sc)',
+             'implies(not (dbname in DBS), not is_none(user_schema) and not is_none(reflection_cache) and not is_none(database_config))'])
+    # after a completed sync the worker holds exactly the request's state for dbname; other databases untouched
+    HOLDS = ['dbname in DBS', 'DBS[dbname].user_schema == unpk(req_usp)', 'DBS[dbname].reflection_cache == req_rc', 'DBS[dbname].database_config == req_dc',
+             'GLOBAL_SCHEMA == unpk(req_gsp)', 'INSTANCE_CONFIG == req_sc', OTHERS]
+    CST = dict(WSTATE); CST.update({'COMPILER': 'CompilerT', 'LAST_STATE': 'Opt[Obj]', 'STD_SCHEMA': 'Obj'})
+    for fn, ret in (('compile', 'Tuple[Obj,Opt[Obj]]'), ('compile_notebook', 'Obj'), ('compile_graphql', 'Tuple[Obj,GqlOp]'), ('compile_sql', 'Obj')):
+        P = dict(SYNC_PARAMS); P.update({'compile_args': 'Seq[Obj]', 'compile_kwargs': 'Map[str,Obj]'})
+        w.contract(WORKER, fn, params=P, ghost=REQ, state=CST, returns=ret, modifies=list(CST),
+                   requires=WREQ, ensures=HOLDS,
+                   raises={'FailedStateSync': dict(ensures=UNCHANGED), 'Exception': dict(ensures=HOLDS)})
+    # ---- worker.compile_in_tx
+    w.define('corr(c, s)', 'c == unpk(s)')       # compiler state object c is the one the pickled state s denotes
+    w.ext_methods['Obj.set_root_user_schema'] = dict(params={'schema': 'Obj'}, modifies=['Obj.root_user_schema'], returns='none',
+        ensures=['self.root_user_schema == schema', 'heap_same_except("Obj.root_user_schema", self)'])
+    w.ext_methods['CompilerT.compile_serialized_request_in_tx'] = dict(params={'cstate': 'Obj'},
+        ghost={'req_state': 'Obj', 'req_usp': 'Obj', 'reuse': 'bool'},
+        requires=['corr(cstate, req_state)', 'implies(not reuse, cstate.root_user_schema == unpk(req_usp))'],
+        returns='Tuple[Obj,Obj]', raises={'Exception': {}}, tag='property')
+    MARK = 'state.REUSE_LAST_STATE_MARKER'
+    w.contract(WORKER, 'compile_in_tx',
+        params={'dbname': 'Opt[Obj]', 'user_schema': 'Opt[Obj]', 'cstate': 'Obj', 'args': 'Seq[Obj]', 'kwargs': 'Map[str,Obj]'},
+        ghost={'req_state': 'Obj', 'req_usp': 'Obj', 'reuse': 'bool'},
+        state={'DBS': 'Map[Obj,DS]', 'LAST_STATE': 'Opt[Obj]', 'COMPILER': 'CompilerT'}, modifies=['LAST_STATE', 'Obj.root_user_schema'],
+        returns='Tuple[Obj,Obj]',
+        requires=['reuse == (cstate == %s)' % MARK, 'req_state != %s' % MARK,
+                  'implies(reuse, not is_none(LAST_STATE) and corr(some(LAST_STATE), req_state))',
+                  'implies(not reuse, cstate == req_state)',
+                  'implies(not reuse and is_none(dbname), not is_none(user_schema) and some(user_schema) == req_usp)',
+                  'implies(not reuse and not is_none(dbname), some(dbname) in DBS and DBS[some(dbname)].user_schema == unpk(req_usp))'],
+        ensures=['not is_none(LAST_STATE)', 'corr(some(LAST_STATE), result[1])'],     # K re-established for the returned pickled state
+        raises={'Exception': {}})
+
+    # ------------------------------------------------------------------ server: the RPC
+    # J is stated for one arbitrary database d (a ghost constant of each pool entry point): equivalent to "for all d", and keeps every VC ground
+    w.define('JD(wk, d)', 'implies(d in wk._dbs, d in wk.A_dbs and wk.A_dbs[d].user_schema == unpk(wk._dbs[d].user_schema_pickle) '
+             'and wk.A_dbs[d].reflection_cache == wk._dbs[d].reflection_cache and wk.A_dbs[d].database_config == wk._dbs[d].database_config '
+             'and bool(wk._dbs[d].user_schema_pickle))')
+    w.define('JG(wk)', 'wk.A_global == unpk(wk._global_schema_pickle) and wk.A_sys == wk._system_config')
+    # K: the believed last pickled state denotes the worker's LAST_STATE  (maintained by compile/compile_in_tx storing result[1]; see level_note)
+    w.define('K(wk)', 'implies(not is_none(wk._last_pickled_state), not is_none(wk.A_last) and corr(some(wk.A_last), some(wk._last_pickled_state)))')
+    A_OTHERS = 'heap_same_except("Worker.A_dbs", self) and heap_same_except("Worker.A_global", self) and heap_same_except("Worker.A_sys", self) and heap_same_except("Worker.A_last", self)'
+    def sub(cl):    # worker clause over (dbname, user_schema, ...) -> over the RPC argument vector
+        out = []
+        for c in _a(cl):
+            for nm, i in (('user_schema', 1), ('reflection_cache', 2), ('global_schema', 3), ('database_config', 4), ('system_config', 5)):
+                c = c.replace('some(%s)' % nm, 'some(args[%d])' % i).replace('is_none(%s)' % nm, 'is_none(args[%d])' % i)
+            c = c.replace('dbname', 'some(args[0])')
+            out.append(c)
+        return out
+    RPC1_PRE = ['len(args) >= 6', 'not is_none(args[0])'] + sub(WREQ)
+    RPC1_HOLDS = sub(HOLDS); RPC1_UNCH = sub(UNCHANGED)
+    RPC2_PRE = ['len(args) >= 4', 'not is_none(args[2])', 'req_state != %s' % MARK,
+                'implies(some(args[2]) == %s, not is_none(self.A_last) and corr(some(self.A_last), req_state))' % MARK,
+                'implies(some(args[2]) != %s, some(args[2]) == req_state)' % MARK,
+                'implies(some(args[2]) != %s and is_none(args[0]), not is_none(args[1]) and some(args[1]) == req_usp)' % MARK,
+                'implies(some(args[2]) != %s and not is_none(args[0]), some(args[0]) in self.A_dbs and self.A_dbs[some(args[0])].user_schema == unpk(req_usp))' % MARK]
+    GREQ = dict(REQ); GREQ.update({'kind': 'int', 'req_state': 'Obj'})
+    def guard(k, cls): return ['implies(kind == %d, %s)' % (k, c) for c in cls]
+    RPC_PRE = guard(1, RPC1_PRE) + guard(2, RPC2_PRE)
+    A_FIELDS = ['Worker.A_dbs', 'Worker.A_global', 'Worker.A_sys', 'Worker.A_last']
+    G_FIELDS = ['Worker.G_synced', 'Worker.G_acked', 'Worker.G_status', 'Worker.G_fss', 'Worker.G_calls']
+    w.classes['Worker']['G_calls'] = 'int'
+    RPC_EFFECT = (['implies(kind == 1 and self.G_synced, %s)' % c for c in RPC1_HOLDS] +
+                  ['implies(kind == 1 and not self.G_synced, %s)' % c for c in RPC1_UNCH] +
+                  ['implies(kind == 2, %s)' % c for c in RPC1_UNCH] + [A_OTHERS])     # worker.compile_in_tx only replaces LAST_STATE
+    w.ext_methods['Worker._request'] = dict(
+        params={'method_name': 'Obj', 'args': 'Seq[Opt[Obj]]'}, ghost=GREQ, requires=RPC_PRE, returns='Obj',
+        modifies=A_FIELDS + G_FIELDS,
+        ensures=RPC_EFFECT + [
+            'self.G_calls == old(self.G_calls) + 1', 'self.G_status >= 0 and self.G_status <= 2', 'not self.G_acked',
+            'implies(self.G_status == 0, self.G_synced)',                          # the handler returned normally: it completed its sync
+            'implies(self.G_status == 1 and self.G_fss, not self.G_synced)',        # FailedStateSync: all-or-nothing (worker.__sync__ contract)
+            'heap_same_except("Worker.G_calls", self)'],
+        tag='property')
+    w.ext_methods['Con.is_closed'] = dict(params={}, returns='bool')
+    w.ext_funcs['time.monotonic'] = dict(params={}, returns='float')
+    LOADS = dict(params={'data': 'Obj'}, state=['self'], returns='Seq[Obj]',
+                 ensures=['len(result) >= 2', 'result[0] == self.G_status', 'implies(self.G_status == 1, len(result) == 3)',
+                          'implies(self.G_status != 1, len(result) == 2)',
+                          'implies(self.G_status == 1, isinstance(result[1], state.FailedStateSync) == self.G_fss)'])
+    CB_REQ = ['implies(not is_none(sync_state), some(sync_state).worker == self)',
+              'implies(not is_none(sync_state) and not (some(sync_state).dbname in self._dbs), ' + ' and '.join('("%s" in some(sync_state).kw)' % c for c in COMPS) + ')',
+              'implies(not is_none(sync_state) and ("user_schema_pickle" in some(sync_state).kw), bool(some(sync_state).kw["user_schema_pickle"]))',
+              'implies(not is_none(sync_state) and (some(sync_state).dbname in self._dbs), bool(self._dbs[some(sync_state).dbname].user_schema_pickle))']
+    BEL_UNCH = ['heap_same("Worker._dbs") and heap_same("Worker._global_schema_pickle") and heap_same("Worker._system_config")']
+    ACKED = cb_post('self', 'some(sync_state).dbname', lambda c: ('("%s" in some(sync_state).kw)' % c, 'some(sync_state).kw["%s"]' % c))
+    BELIEF = (['implies(self.G_acked, %s)' % c for c in ACKED] + ['implies(not self.G_acked, %s)' % c for c in BEL_UNCH])
+    # the policy the property's last sentence demands: acknowledge exactly when the worker completed the transfer.
+    # Two recorded findings (known_findings.json) are carved out by their exact outcome class; everything else must hold.
+    KF1 = 'self.G_status == 1 and not self.G_fss and not self.G_synced'     # handler never ran (request could not be decoded in worker_proc) but ack is sent
+    KF2 = 'self.G_status == 2 and self.G_synced'                            # result not picklable after a completed sync: no ack
+    POLICY = 'implies(not is_none(sync_state) and not (%s) and not (%s), self.G_acked == self.G_synced)' % (KF1, KF2)
+    w.contract(POOL, 'BaseWorker.call',
+        params={'self': 'Worker', 'method_name': 'Obj', 'args': 'Seq[Opt[Obj]]', 'sync_state': 'Opt[Cb]'}, ghost=GREQ, returns='Obj',
+        requires=RPC_PRE + CB_REQ + ['not self._closed'],
+        modifies=A_FIELDS + G_FIELDS + ['Worker._dbs', 'Worker._global_schema_pickle', 'Worker._system_config', 'Worker._last_used', 'Obj.__formatted_error__'],
+        ensures=RPC_EFFECT + BELIEF + ['self.G_calls == old(self.G_calls) + 1', 'self.G_synced', 'self.G_acked == (not is_none(sync_state))', 'self.G_status == 0'],
+        raises={'Exception': dict(ensures=['implies(self.G_calls == old(self.G_calls), %s)' % c for c in BEL_UNCH + sub(UNCHANGED) + [A_OTHERS]] +
+                                          ['implies(self.G_calls != old(self.G_calls), %s)' % c for c in RPC_EFFECT + BELIEF + [POLICY, 'implies(is_none(sync_state), not self.G_acked)']])},
+        hints={'ext_funcs': {'pickle.loads': LOADS}},
+        tags={POLICY: 'property'})
+    w._kf = {'KF1': KF1, 'KF2': KF2}
+
+    # ------------------------------------------------------------------ server: the pool entry points
+    NOTKF = 'not (worker.G_status == 1 and not worker.G_fss and not worker.G_synced) and not (worker.G_status == 2 and worker.G_synced)'
+    w.ext_methods['PoolT._acquire_worker'] = dict(params={}, returns='Worker', optional=('condition', 'weighter', 'compiler_args'),
+        ghost={'d0': 'Obj', 'd1': 'Obj'},
+        ensures=['JD(result, d0)', 'JD(result, d1)', 'JG(result)', 'K(result)', 'not result._closed', 'result.G_calls == 0'], accept_any=True)
+    w.ext_methods['PoolT._release_worker'] = dict(params={'worker': 'Worker'}, returns='none', optional=('put_in_front',),
+        # handing a worker back requires the coupling invariant for it again (outside the two recorded findings)
+        ghost={'d0': 'Obj', 'd1': 'Obj'},
+        requires=['implies(worker.G_calls == 0 or (%s), JD(worker, d0) and JD(worker, d1) and JG(worker))' % NOTKF], tag='property')
+    for fn in ('compile', 'compile_notebook', 'compile_graphql', 'compile_sql'):
+        P = {'self': 'PoolT', 'dbname': 'Obj', 'compile_args': 'Seq[Obj]', 'compiler_args': 'Map[str,Obj]'}; P.update(REQP)
+        w.contract(POOL, 'AbstractPool.' + fn, params=P, returns='Seq[Obj]' if fn == 'compile' else 'Obj', ghost={'d0': 'Obj'},
+            requires=['bool(user_schema_pickle)'],
+            modifies=A_FIELDS + G_FIELDS + ['Worker._dbs', 'Worker._global_schema_pickle', 'Worker._system_config', 'Worker._last_used', 'Worker._last_pickled_state', 'Obj.__formatted_error__'],
+            raises={'Exception': {}},
+            call_ghost={'BaseWorker.call': {'req_usp': 'user_schema_pickle', 'req_gsp': 'global_schema_pickle', 'req_rc': 'reflection_cache',
+                                            'req_dc': 'database_config', 'req_sc': 'system_config', 'kind': '1', 'req_state': 'user_schema_pickle'},
+                        'PoolT._acquire_worker': {'d1': 'dbname'}, 'PoolT._release_worker': {'d1': 'dbname'}})
+    w.contract(POOL, 'AbstractPool.compile_in_tx',
+        params={'self': 'PoolT', 'dbname': 'Obj', 'user_schema_pickle': 'Obj', 'txid': 'Obj', 'pickled_state': 'Obj', 'state_id': 'Obj',
+                'compile_args': 'Seq[Obj]', 'compiler_args': 'Map[str,Obj]'}, returns='Tuple[Obj,Obj,int]',
+        ghost={'d0': 'Obj'},
+        requires=['pickled_state != %s' % MARK],
+        modifies=A_FIELDS + G_FIELDS + ['Worker._dbs', 'Worker._global_schema_pickle', 'Worker._system_config', 'Worker._last_used', 'Worker._last_pickled_state', 'Obj.__formatted_error__'],
+        raises={'Exception': {}},
+        hints={'entry_values': {'dbname': 'dbname0', 'user_schema_pickle': 'usp0', 'pickled_state': 'state0'}},
+        call_ghost={'BaseWorker.call': {'req_usp': 'usp0', 'req_gsp': 'usp0', 'req_rc': 'usp0', 'req_dc': 'usp0', 'req_sc': 'usp0', 'kind': '2', 'req_state': 'state0'},
+                    'PoolT._acquire_worker': {'d1': 'dbname0'}, 'PoolT._release_worker': {'d1': 'dbname0'}})
+    w._wreq, w._holds, w._unchanged = WREQ, HOLDS, UNCHANGED
     return w
+
+def configure(vf):
+    pass
+
+def scenarios(tier, seed, repo_root, outdir):
+    """bounded stand-in: request histories on the real pool/worker code (see scenario.py)"""
+    import os, json, subprocess
+    here = os.path.dirname(os.path.abspath(__file__)); root = os.path.dirname(os.path.dirname(here))
+    out = os.path.join(outdir, 'scenario_out.json')
+    if os.path.exists(out): os.unlink(out)
+    n, ln = (300, 5) if tier == 'quick' else (6000, 7)
+    env = dict(os.environ); env['PYTHONPATH'] = '%s:%s' % (os.path.join(root, 'stubs'), repo_root); env['VERIF_REPO'] = repo_root
+    p = subprocess.run(['/venv/bin/python', os.path.join(here, 'scenario.py'), str(seed), str(n), str(ln), out], capture_output=True, text=True, env=env, cwd=repo_root, timeout=3000)
+    if not os.path.exists(out): raise RuntimeError('scenario runner failed: ' + (p.stderr or p.stdout)[-2000:])
+    r = json.load(open(out))
+    if not r['failure'] and (r['stats']['compiled'] < r['histories'] or r['stats']['tx'] == 0 or r['stats']['failed_sync'] == 0):
+        raise RuntimeError('scenario explorer is vacuous: %r' % r['stats'])
+    return dict(stats=r['stats'], evaluations=r['histories'], failure=r['failure'], label='request histories <= %d steps over 2 databases x 2 workers, state changes incl. empty maps, failed syncs (bounded)' % ln,
+                clause='every request that reaches the compiler is compiled with exactly the state supplied with it')
